@@ -82,18 +82,18 @@ static void run_fn(const Fn& fn) {
     unsigned hangs = 0;
     static unsigned total_hangs = 0;
     for (auto& pp : ptrs) for (size_t n : ns) {
-        if (hangs >= 2 || (hangs >= 1 && total_hangs > 6)) break;   // a few witnesses are enough; every further one costs its full watchdog budget
+        if (hangs >= 2 || (hangs >= 1 && total_hangs >= 3)) break;   // a few witnesses are enough; every further one costs its full watchdog budget
         size_t count = fn.elem ? (n + fn.elem - 1) / fn.elem : n;
         if (fn.elem && ((uintptr_t)pp.first % (fn.elem >= 8 ? 1 : 1)) != 0) {}
         uint32_t cls = (uint32_t)(hash_str(pp.second) % 200) + 1;
         volatile bool ok = false;
-        cpu_watchdog(3);    // 3 s of CPU time for a call that takes well under a millisecond (at most 76800 prefetch instructions)
+        cpu_watchdog(total_hangs >= 3 ? 1 : 3);    // CPU seconds for a call that takes well under a millisecond (at most 76800 prefetch instructions)
         bool done = guarded_call([&]() { fn.f(pp.first, count); });
         cell_watchdog(true);
         if (done) ok = true;
         else if (trap().sig == SIGVTALRM) {
             char in[160]; std::snprintf(in, sizeof in, "place=%s,ptr_off=%u,n=%zu", pp.second, (unsigned)((uintptr_t)pp.first & 63), count);
-            viol("hang", cls, -1, in, "no return within 3 s of CPU time", "returns");
+            viol("hang", cls, -1, in, total_hangs >= 3 ? "no return within 1 s of CPU time" : "no return within 3 s of CPU time", "returns");
             ++hangs; ++total_hangs;
         } else {
             TrapCtx& t = trap(); c.traps++;
